@@ -77,8 +77,11 @@ def scores(ctx, dec_lines, ref_lines, enforce, cutoff=10.0, zones=False):
         # zone-file routes: every fast routine twice with the same fresh file name (absent -> written, present -> read),
         # the SQL i-RMSD routine with that file
         base._counter[0] += 1
-        izf = os.path.join(ctx.tmpdir(), 'm_%d.izone' % base._counter[0])
-        lzf = os.path.join(ctx.tmpdir(), 'm_%d.lzone' % base._counter[0])
+        izf = os.path.join(ctx.tmpdir(), 'm.izone')          # same names from run to run; absent before the library writes them
+        lzf = os.path.join(ctx.tmpdir(), 'm.lzone')
+        for zf in (izf, lzf):
+            if os.path.exists(zf):
+                os.remove(zf)
         o['irmsd_fast_zone_written'] = call(lambda: S.compute_irmsd_fast(izone=izf, cutoff=cutoff))
         o['irmsd_fast_zone_read'] = call(lambda: S.compute_irmsd_fast(izone=izf, cutoff=cutoff))
         o['irmsd_sql_zone_read'] = call(lambda: S.compute_irmsd_pdb2sql(izone=izf, cutoff=cutoff))
